@@ -5,6 +5,10 @@ cd "$(dirname "$0")"
 if ! /venv/bin/python -c "import hypothesis" 2>/dev/null; then
   PIP_NO_INDEX=1 /venv/bin/pip install --no-index --find-links /opt/veriftools/wheels hypothesis
 fi
+# atheris (coverage-guided stage of the thorough tier) lives beside the checks, not in the repository's venv
+if [ ! -d .deps/atheris ]; then
+  PIP_NO_INDEX=1 /venv/bin/pip install -q --no-index --find-links /opt/veriftools/wheels --target .deps atheris || echo "setup: atheris not installed, the coverage-guided stage will be skipped"
+fi
 /venv/bin/python - <<'PY'
 import hypothesis, regex, yaml, shutil, sys
 assert shutil.which("objdump"), "objdump missing"
